@@ -66,8 +66,8 @@ def walltime_str(minutes):
     return f"{minutes // 60}:{minutes % 60:02d}:00"
 
 
-def make_config(scn):
-    """Scenario dict -> GenericCommandConfiguration (public models only)."""
+def make_groups(scn):
+    """The scenario's submission groups as SubmissionGroup dicts (public models only)."""
     groups = []
     for gi, g in enumerate(scn["groups"]):
         if scn.get("mode") == "local":
@@ -95,6 +95,12 @@ def make_config(scn):
             verbose=g.get("verbose", False),
         )
         groups.append(SubmissionGroup(name=group_name(gi), submitter_params=sp).dict())
+    return groups
+
+
+def make_config(scn):
+    """Scenario dict -> GenericCommandConfiguration (public models only)."""
+    groups = make_groups(scn)
     hooks = scn.get("hooks") or {}
     cfg = GenericCommandConfiguration(
         submission_groups=groups,
